@@ -236,6 +236,7 @@ package inode
 //@   allocates buf.Buf, marshal.Enc, marshal.Dec, cell:uint64
 //@   modifies buf.Buf.dirty, []uint8@buf.Buf.Data, op.freeBnums, []uint64@alloctxn.AllocTxn.freeBnums
 //@   ensures [F3-rootornull] result == 0 || result == root @C05
+//@   ensures [F3-exact] root != 0 ==> result == ite(level == 0 || bn == 0, root, 0) @C05
 //@   ensures listsValid(op) && listsStable(op)
 
 //@ spec (*Inode).Shrink
